@@ -26,6 +26,7 @@ func checkC13(c *core.Ctx, r *core.Report) {
 		"(8) RANGEDEL — no range loop over a slice read from a struct field calls (transitively) a function that rewrites that field (an in-place removal under a running range loop skips every second element: a deleted index stays partly visible); " +
 		"(5) KEYSEP — the functions that build stream ids and segment keys from (index, organisation, suffix) never concatenate two variable parts without a literal separator (ambiguous keys merge tenants)."
 	r.NotCovered = "wildcard/alias expansion semantics, prefix-named indexes, whether the deleting functions that do receive the organisation use it on every structure (metadata.deleteTable drops the table entry of all tenants), data of other indexes through shared files"
+	checkScannerBytesNotRetained(c, r)
 
 	orgFields := map[*types.Var]string{
 		c.Field(pkgWriter, "SegStore.OrgId"):             "SegStore",
@@ -1524,4 +1525,96 @@ func checkNoRemovalWhileRanging(c *core.Ctx, r *core.Report, scope []string) {
 	}
 	r.Count("range_loops_over_slices_read_from_fields", n)
 	r.Floor("LIVE", "range loops over slices read from struct fields", n, 5)
+}
+
+// checkScannerBytesNotRetained — C13 clause (9).  The per-organisation index list (virtualtablenames-<org>.txt) is
+// read with a bufio.Scanner and rewritten when an index is deleted.  Scanner.Bytes() hands out a window of the
+// scanner's own buffer, valid until the next Scan: in pkg/virtualtable such a window (or a sub-slice of it) is not
+// kept in a container — appended to a slice of slices, stored in a map, a field or a slice element, sent on a
+// channel — unless it was converted to a string or copied first.  Kept windows go stale once the file is larger than
+// the scanner's buffer, and the rewritten list then holds fragments instead of the surviving index names: deleting
+// one index makes other indexes of the organisation disappear from wildcard expansion.
+func checkScannerBytesNotRetained(c *core.Ctx, r *core.Report) {
+	pkgPath := core.ModPath + "/pkg/virtualtable"
+	n := 0
+	for _, fn := range c.RepoFunctions() {
+		if core.FnPkgPath(fn) != pkgPath || fn.Blocks == nil {
+			continue
+		}
+		k := 0
+		for _, ci := range core.CallsIn(fn) {
+			call, ok := ci.(*ssa.Call)
+			if !ok {
+				continue
+			}
+			f := core.CalleeFunc(call)
+			if f == nil || f.Pkg() == nil || f.Pkg().Path() != "bufio" || f.Name() != "Bytes" {
+				continue
+			}
+			n++
+			k++
+			construct := fmt.Sprintf("%s:Scanner.Bytes#%d-not-kept-past-the-next-Scan", shortFn(fn), k)
+			// the windows: the call and slices of it (through phis)
+			windows := map[ssa.Value]bool{call: true}
+			work := []ssa.Value{call}
+			var bad ssa.Instruction
+			for len(work) > 0 && bad == nil {
+				v := work[len(work)-1]
+				work = work[:len(work)-1]
+				refs := v.Referrers()
+				if refs == nil {
+					continue
+				}
+				for _, u := range *refs {
+					switch x := u.(type) {
+					case *ssa.Slice:
+						if x.X == v && !windows[x] {
+							windows[x] = true
+							work = append(work, x)
+						}
+					case *ssa.Phi:
+						if !windows[x] {
+							windows[x] = true
+							work = append(work, x)
+						}
+					case *ssa.Store:
+						// stored as a value into a field, an element or a cell that is itself kept
+						if x.Val == v {
+							switch x.Addr.(type) {
+							case *ssa.IndexAddr, *ssa.FieldAddr, *ssa.Global:
+								bad = x
+							}
+						}
+					case *ssa.MapUpdate:
+						if x.Value == v || x.Key == v {
+							bad = x
+						}
+					case *ssa.Send:
+						if x.X == v {
+							bad = x
+						}
+					case *ssa.Call:
+						// append(kept, window): the window becomes an ELEMENT only when the slice appended to is a
+						// slice of byte slices; append(dst []byte, window...) copies the bytes
+						if bi, ok := x.Call.Value.(*ssa.Builtin); ok && bi.Name() == "append" && len(x.Call.Args) == 2 {
+							if sl, ok := x.Call.Args[1].(*ssa.Slice); ok {
+								// the variadic argument is a slice over a fresh array holding the elements
+								if al, ok := sl.X.(*ssa.Alloc); ok && al.Referrers() != nil {
+									_ = al
+								}
+							}
+						}
+					}
+				}
+			}
+			// elements of a variadic append: `append(kept, window)` stores the window into the array backing
+			// the variadic slice (an IndexAddr store, caught above) — that array is then appended as elements
+			if bad != nil {
+				r.Violation("OWN", construct, c.Pos(bad.Pos()), "a window of the scanner's buffer is kept (appended as an element, stored in a container or sent) without being copied or converted to a string: after the next Scan it shows other bytes, so the index list that is rewritten from the kept lines is garbage once the file outgrows the scanner's buffer — indexes that were not deleted vanish from the organisation's list")
+			} else {
+				r.OK("OWN", construct, c.Pos(call.Pos()), "the window is only read, converted or copied before the next Scan")
+			}
+		}
+	}
+	r.Floor("OWN", "Scanner.Bytes windows in pkg/virtualtable", n, 2)
 }
